@@ -321,8 +321,15 @@ func (ip *IPv4) AddressTo4() error {
 	} else {
 		dst = addr
 	}
-	ip.SrcIP = src
-	ip.DstIP = dst
+	// Only store an address whose form actually changes: for a decoded layer
+	// (4-byte addresses) this method is then read-only and safe to reach from
+	// concurrent readers (checksum verification).
+	if len(ip.SrcIP) != len(src) {
+		ip.SrcIP = src
+	}
+	if len(ip.DstIP) != len(dst) {
+		ip.DstIP = dst
+	}
 	return nil
 }
 
